@@ -102,7 +102,7 @@ def stop_count(Q, crit, k0=0):
     return out
 
 
-def judge_run(cls, sysname, t0, f0, S, stop, op, solver, res, traj=None, it0=0, cfl=CFL, as_array=False, stop_obj=None):
+def judge_run(cls, sysname, t0, f0, S, stop, op, solver, res, traj=None, it0=0, cfl=CFL, as_array=False, stop_obj=None, same_object=False):
     """run one solve/restart and evaluate the property; returns (violations, returned list)"""
     name = cls.__name__
     gear = space.is_multistep(cls)
@@ -116,7 +116,8 @@ def judge_run(cls, sysname, t0, f0, S, stop, op, solver, res, traj=None, it0=0, 
     Q, dts = traj
     Ns = stop_count(Q, crit)
     bad = []
-    fcall = f0.copy()
+    # same_object: the caller hands over the very field object an earlier call returned (the usual way to restart), not a copy of it
+    fcall = f0 if same_object else f0.copy()
     before = ([d.copy() for d in fcall.data], fcall.time, fcall.it)
     # the dictionary object handed to the code may be one the caller reuses for many calls (stop_obj); the oracle works on a pristine copy
     given = stop_obj if stop_obj is not None else (dict(stop) if stop is not None else None)
@@ -364,7 +365,7 @@ def shard_restart(arg):
                         trj = (Q, dts)
                     else:
                         trj = traj
-                    bad, snaps = judge_run(cls, sysname, g1.time, g1, S2, stop2, "restart", sv, res, trj, it0=it0)
+                    bad, snaps = judge_run(cls, sysname, g1.time, g1, S2, stop2, "restart", sv, res, trj, it0=it0, same_object=True)
                     if snaps is not None:
                         res.states.add(hash((iname, sysname, "r", tuple((x.time, x.it, tuple(d.tobytes() for d in x.data)) for x in snaps), sv.totnit())))
                     if res.nviol["C07/%s/restart/non-termination" % iname] >= MAX_TIMEOUTS:
